@@ -32,7 +32,7 @@ claimed = {
    note="The enumerated axes are complete; timing inside each case is sampled (vhook delays). 'Connecting' is modelled as refused port (active) / no peer (passive).",
    technique="enumerated situation x API product with wire/peer/metric observers; conservation monitor under racing select/deselect; exhaustive cut-point segmentation"),
  "C08": dict(level=E,
-   text="1600 (quick) / 24k (thorough) peer frame sequences (length 1..12 over every SType 0..255, PType, body, arbitrary ids/status bytes; active and passive, validation on/off, host/equipment, coalesced or per-frame writes, supervisor-step delays, second TCP connections, frames pipelined behind a session-ending Separate.req) each played against a fresh real connection; the exact FIFO outbound frame list fenced by a Linktest barrier, State() and handler deliveries are compared with an independent E37 responder state machine. Race build." + HELD,
+   text="1600 (quick) / 24k (thorough) peer frame sequences (length 1..12 over every SType 0..255, PType, body, arbitrary ids/status bytes; active and passive, validation on/off, host/equipment, coalesced or per-frame writes, supervisor-step delays, second TCP connections, frames pipelined behind a session-ending Separate.req) each played against a fresh real connection; the exact FIFO outbound frame list fenced by a Linktest barrier, State() and handler deliveries are compared with an independent E37 responder state machine; plus the complete 72-case product (x6 thorough) of a control response carrying the system bytes of a data transaction the library itself has open, sent while its sender is parked right behind the write or already waiting (exactly one Reject.req reason 3, link stays Selected, the genuine secondary still completes the send). Race build." + HELD,
    note="Trusts the responder table in c08Model (from the property text / E37). Two scheduling-dependent answers are accepted either way and documented (duplicate Select.rsp racing transaction close; S9F1 gated at write time).",
    technique="reference-model monitor: independent E37 responder FSM vs barrier-fenced outbound frame log of a real connection"),
  "C09": dict(level=F,
